@@ -751,6 +751,9 @@ where
         self.topic_alias_send = None;
         self.topic_alias_recv = None;
 
+        // Drop a partially received frame: it belongs to the transport that was just closed
+        self.packet_builder.reset();
+
         // Release packet IDs for SUBACK
         for packet_id in self.pid_suback.drain() {
             if self.pid_man.is_used_id(packet_id) {
